@@ -18,6 +18,8 @@ impl LocalKey {
         let (ek, n2) = kdf(&self.0, 0x80, nonce).split();
         let ak = kdf(&self.0, 0x81, nonce);
 
+        #[cfg(paseto_verif)]
+        let n2 = crate::verif::ctr_block(n2);
         let cipher = ctr::Ctr128BE::<aes::Aes256>::new(&ek, &n2);
         let mac = hmac::Hmac::new_from_slice(&ak[..32]).expect("key should be valid");
         (cipher, mac)
